@@ -104,6 +104,26 @@ class LooseStr(object):
         return hash(("LooseStr", len(self.text)))
 
 
+class ErrText(Exception):
+    """An exception instance that is a *value*: the application hands the error object it caught to a String field
+    (`lastError: String`), which serialises it through str(). It is never raised."""
+
+    def __init__(self, text):
+        Exception.__init__(self, text)
+        self.text = text
+
+    def __str__(self):
+        return self.text
+
+
+def _error_as_value(item):
+    from ..core import h64
+
+    if isinstance(item, str) and int(h64("errtext:" + item)[:2], 16) % 2 == 0:
+        return ErrText(item)
+    return item
+
+
 def _loosen(v):
     from ..core import h64
 
@@ -495,7 +515,10 @@ class Binding(object):
                     for item in value:
                         key = repr(item)
                         if key not in tasks:
-                            tasks[key] = info.runtime.submit(lambda item=item: item)
+                            # (string items may come back as exception *instances*: values, never raised)
+                            tasks[key] = info.runtime.submit(
+                                (lambda item=item: _error_as_value(item)) if S.unwrap(f.type) == "String"
+                                else (lambda item=item: item))
                         futures.append(tasks[key])
                     return info.runtime.gather_values(futures)
                 return value
@@ -513,6 +536,11 @@ class Binding(object):
                 binding.log({"ev": "resolver_start", "type": typename, "field": fieldname,
                              "path": list(info.path), "kwargs": kwargs})
             await binding.gates.wait(tuple(info.path))
+            if tuple(info.path) in getattr(binding, "cancel_paths", ()):
+                # the resolver's in-flight work was cancelled (a timeout guard, a client shutting down)
+                import asyncio
+
+                raise asyncio.CancelledError()
             if submits:
                 return info.runtime.submit(lambda: binding._finish(obj, f, kwargs, info))
             return binding._finish(obj, f, kwargs, info)
